@@ -5,7 +5,7 @@
    (expression, offset) pair is stored twice - which is what the absence of left recursion buys,
    see C07 - the count is bounded by (number of expressions) x (input length + 1). *)
 From PV Require Import Lib.Base Lib.Utf8 Syntax.RGrammar Syntax.Code Model.PState Spec.Pos Model.Runtime
-  Proofs.Utf8Proofs Proofs.ReadProofs Proofs.Inv Proofs.InvStep.
+  Proofs.Utf8Proofs Proofs.ReadProofs Proofs.Inv Proofs.InvStep Proofs.TopLevel.
 From Coq Require Import ZifyBool ZifyN ZifyNat.
 Local Open Scope N_scope.
 
@@ -371,6 +371,50 @@ Section Fuel.
   Proof.
     intros Hnp H Hnd Hin. rewrite (evaluations_are_stored_results fuel v errors final Hnp H). unfold stored.
     pose proof (NoDup_incl_length Hnd Hin) as L. rewrite prod_length in L. lia.
+  Qed.
+
+  (* stored offsets lie within the input: from the invariant of the run-time model (InvStep) *)
+  Lemma keys_within s : I c s -> forall o n, In (o, n) (expr_keys (memo s)) -> (o <= length (cData c))%nat.
+  Proof.
+    intros [_ Hm _] o n Hin. unfold expr_keys in Hin. apply in_flat_map in Hin as (en & Hen & Hk).
+    unfold memo_ok in Hm. rewrite Forall_forall in Hm. specialize (Hm en Hen).
+    destruct en as [[o' k] r]. cbn in Hk. destruct k as [n'|rn]; [|contradiction].
+    destruct Hk as [E|[]]. inversion E; subst. cbn in Hm. destruct Hm as ((_ & _ & L) & _ & Ho). lia.
+  Qed.
+
+  Lemma final_keys_within fuel v errors final :
+    did_not_panic fuel -> parse c fuel = Returned v errors final ->
+    forall o n, In (o, n) (expr_keys (memo final)) -> (o <= length (cData c))%nat.
+  Proof.
+    intros Hnp. unfold did_not_panic, start_eval in Hnp. unfold parse, finish. destruct (cG c) as [|r0 g] eqn:G.
+    - intros H. inversion H; subst. cbn. intros o n [].
+    - destruct (entry_name c) as [en|]; [|discriminate]. destruct (find_rule en _) as [sr|].
+      + pose proof (parseRuleWrap_inv c fuel fuel sr _ (I_init c)) as Hs.
+        destruct (parseRuleWrap _ _ _ _ _) as [[v0 ok] s'|pv s'|]; [|exfalso; eapply Hnp; reflexivity|discriminate].
+        destruct Hs as (HI & _). intros H.
+        assert (E : memo final = memo s').
+        { destruct ok; [inversion H; reflexivity|]. destruct (errs s'); inversion H; subst; [|reflexivity].
+          apply no_match_mc. }
+        rewrite E. apply keys_within. exact HI.
+      + intros H. inversion H; subst. cbn. intros o n [].
+  Qed.
+
+  (* Memoize bounds the work - partial: what is left as a hypothesis is that no (offset, expression) pair is stored
+     twice (the absence of left recursion; decided on the implementation by the C06 check) *)
+  Theorem linear_bound_nodup fuel v errors final (ids : list nid) :
+    did_not_panic fuel ->
+    parse c fuel = Returned v errors final ->
+    NoDup (expr_keys (memo final)) ->
+    (forall o n, In (o, n) (expr_keys (memo final)) -> In n ids) ->
+    exprCnt final <= N.of_nat (length ids) * (N.of_nat (length (cData c)) + 1).
+  Proof.
+    intros Hnp H Hnd Hids.
+    pose proof (linear_bound_partial fuel v errors final (seq 0 (S (length (cData c)))) ids Hnp H Hnd) as L.
+    rewrite seq_length in L. rewrite Nat2N.inj_succ in L.
+    assert (Hin : incl (expr_keys (memo final)) (list_prod (seq 0 (S (length (cData c)))) ids)).
+    { intros [o n] Hk. apply in_prod; [|eapply Hids; exact Hk]. apply in_seq.
+      pose proof (final_keys_within fuel v errors final Hnp H o n Hk). lia. }
+    specialize (L Hin). lia.
   Qed.
 End Fuel.
 
